@@ -251,6 +251,27 @@ def n_variants(qualname: str) -> int:
 
 
 def verify_function(qualname: str, timeout_ms=20000, cross_check=False, only=None, chunk=None) -> FunctionReport:
+    """verify with the primary sidecar; if it does not match the source (undecided), try the listed alternative
+    sidecars for other known shapes of the body - the top-level clauses stay the same"""
+    c = registry.CONTRACTS[qualname]
+    rep = _verify_function(qualname, timeout_ms, cross_check, only, chunk)
+    if rep.status == "undecided" and c.alternatives:
+        for i, alt in enumerate(c.alternatives):
+            saved = {k: getattr(c, k) for k in alt}
+            try:
+                for k, v in alt.items():
+                    setattr(c, k, v)
+                rep2 = _verify_function(qualname, timeout_ms, cross_check, only, chunk)
+            finally:
+                for k, v in saved.items():
+                    setattr(c, k, v)
+            if rep2.status != "undecided":
+                rep2.reason = (rep2.reason + f" [sidecar alternative #{i + 1} matched the source]").strip()
+                return rep2
+    return rep
+
+
+def _verify_function(qualname: str, timeout_ms=20000, cross_check=False, only=None, chunk=None) -> FunctionReport:
     rep = FunctionReport(qualname)
     c = registry.CONTRACTS[qualname]
     try:
@@ -364,7 +385,10 @@ def verify_function(qualname: str, timeout_ms=20000, cross_check=False, only=Non
     except Unsupported as e:
         rep.status, rep.reason = "undecided", f"outside subset / sidecar mismatch: {e}"
         return rep
-    except (core.LiftError, TypeError, KeyError, z3.Z3Exception, AttributeError, IndexError, ValueError) as e:
+    except core.LiftError as e:
+        rep.status, rep.reason = "undecided", f"sidecar no longer matches the source (type of a value changed): {e}"
+        return rep
+    except (TypeError, KeyError, z3.Z3Exception, AttributeError, IndexError, ValueError) as e:
         rep.status, rep.reason = "error", f"{type(e).__name__}: {e}\n{traceback.format_exc()[-1500:]}"
         return rep
     if not obligations:
